@@ -74,6 +74,8 @@ mut("pp-open-no-newline", DPP, "            self.fmt.write_char('\\n')?;\n", "",
 mut("pp-open-keep-first", DPP, "            indent.is_first_line = false;\n", "", ["C14"], note="the parent entry keeps its first-line marker while its children are printed")
 mut("pp-first-sticky", DPP, "level.is_first_line = level.is_first_line && !ends_with_newline;", "level.is_first_line = level.is_first_line && ends_with_newline;", ["C14"])
 mut("pp-pending-off-by-one", DPP, "        for _ in 0..self.pending_ws_only_indent_level {", "        for _ in 1..self.pending_ws_only_indent_level {", ["C14"])
+mut("rf-rename-free-node", ARN, "fn free_node(", "fn release_slot(", [], silent=True, extra=[(IDR, ".free_node(", ".release_slot(")],
+    note="the crate-private retire function under another name")
 mut("serde-skip-last-free", ARN, "    last_free_slot: Option<usize>,\n}", "    #[cfg_attr(feature = \"deser\", serde(skip))]\n    last_free_slot: Option<usize>,\n}", ["C16"])
 mut("std-fast-path-count", ARN, "    pub fn count(&self) -> usize {\n        self.nodes.len()", "    pub fn count(&self) -> usize {\n        #[cfg(feature = \"std\")]\n        {\n            if self.nodes.is_empty() {\n                return 0;\n            }\n        }\n        self.nodes.len()", ["C17"])
 mut("par-iter-skip-first", ARN, "        self.nodes.par_iter()", "        self.nodes[1..].par_iter()", ["C17"])
